@@ -33,7 +33,8 @@ var Profiles = map[string]func() Profile{
 		p := base()
 		p.Name = "churn"
 		p.W = wts(int(KNewEntity), 30, int(KNewBatch), 8, int(KCopy), 8, int(KRemoveEntity), 34, int(KRemoveEntities), 6, int(KAdd), 4, int(KRemove), 2,
-			int(KReset), 1, int(KShrink), 1, int(KSetRel), 6, int(KSetRelBatch), 2, int(KExchange), 2, int(KRemoveBatch), 3, int(KExchangeBatch), 2, int(KAddBatch), 2)
+			int(KReset), 1, int(KShrink), 1, int(KSetRel), 6, int(KSetRelBatch), 2, int(KExchange), 2, int(KRemoveBatch), 3, int(KExchangeBatch), 2, int(KAddBatch), 2,
+			int(KMisuse), 5) // rejected calls (creations among them) must not consume a handle
 		p.MaxAlive = 24
 		p.MaxComps = 2
 		p.RelPct = 20
@@ -169,6 +170,23 @@ var Profiles = map[string]func() Profile{
 		p.FilterSlots = 5
 		p.QuerySlots = 2
 		p.MaxAlive = 60
+		return p
+	},
+	// few archetypes, whole tables created, emptied, shrunk and refilled in bulk: tables grow past their initial capacity,
+	// run empty, are reset with more than 64 rows, and are refilled by creations without initial values
+	"bulk": func() Profile {
+		p := base()
+		p.Name = "bulk"
+		p.W = wts(int(KNewEntity), 8, int(KNewBatch), 34, int(KRemoveEntities), 26, int(KShrink), 18, int(KRemoveEntity), 3, int(KWrite), 3,
+			int(KAddBatch), 3, int(KRemoveBatch), 3, int(KExchangeBatch), 2, int(KReset), 1, int(KCopy), 2)
+		p.MaxAlive = 320
+		p.MaxBatchNew = 150
+		p.HotComps = 2
+		p.MaxComps = 1
+		p.TypedPct = 8
+		p.RelPct = 10
+		p.DetShrink = false
+		p.Caps = [][]int{{65}, {100}, {128}, {128, 65}, {70, 100}, {256}, {64}, {8}}
 		return p
 	},
 	"reset": func() Profile {
